@@ -13,8 +13,10 @@ pkg/apk/apk/cache.go retrieveAndSaveFile / fetchOffline, pkg/apk/apk/implementat
 cachedPackage / cachePackage, pkg/apk/expandapk/expandapk.go ExpandApk / PackageData):
 `Stat` (follows links), `MkdirAll`/`MkdirTemp` (no effect on this abstraction: directories are never
 removed), `create` (O_EXCL creation of a fresh temp: aborts when the name exists), `chunk` (a non-final
-write), `finish` (final write + close), `symlink` (EEXIST ignored), `remove`, `regen` (`os.Create` under
-the *final* name — the `.dat.tar` regeneration in `PackageData`), `read` (open + read, with or without
+write), `finish` (final write + close), `symlink` (EEXIST ignored), `remove`, `rename` (atomic, replaces the
+destination: the repaired `.dat.tar` regeneration in `PackageData`), `regen` (`os.Create` under the
+*final* name — what `PackageData` did before the fix F19a; kept for the negative theorem and as the
+shape of the mutation "write under the final name"), `read` (open + read, with or without
 an integrity check: gzip members carry a CRC/length trailer, a plain tar does not), `readNewest`
 (fetchOffline: newest directory entry by mtime).  `mark` is the position of a `verifhook.Point`.
 
@@ -85,6 +87,7 @@ inductive Op where
   | finish (t : Name)
   | symlink (t : Name) (dst : Name)
   | remove (t : Name)
+  | rename (t : Name) (dst : Name)
   | regen (dst : Name) (c : Cid)
   | read (n : Name) (checked : Bool)
   | readNewest (cands : List Name)
@@ -128,6 +131,7 @@ def ctxStep (Γ : Ctx) : Op → Ctx
     | _ => Γ
   | .symlink t _ => Γ.upd t .gone
   | .remove t => Γ.upd t .gone
+  | .rename t _ => Γ.upd t .gone
   | .regen dst c => Γ.upd dst (.opened c)
   | _ => Γ
 
@@ -152,6 +156,10 @@ def stepOp (fs : FS) (obs : List Obs) : Op → Option (FS × List Obs)
     | none => some (fs.set dst (some (.link t)), obs)
     | some _ => some (fs, obs)          -- EEXIST is ignored
   | .remove t => some (fs.set t none, obs)    -- errors ignored
+  | .rename t dst =>
+    match fs.get t with
+    | some n => some ((fs.set dst (some n)).set t none, obs)   -- rename(2): atomic, replaces dst
+    | none => none
   | .regen dst c =>
     match fs.get dst with
     | some (.link _) => none            -- os.Create through a (dangling) link: unreachable, see Inv.linkOk
@@ -228,6 +236,8 @@ def okOp (Γ : Ctx) : Op → Prop
   | .finish t => ∃ c, Γ t = .opened c
   | .symlink t dst => ∃ k, Γ t = .closed k ∧ dst = .adv k
   | .remove t => ∃ c, Γ t = .closed c
+  | .rename t dst => ∃ k, Γ t = .closed k ∧ dst = .adv k
+  | .regen _ _ => False      -- no builder of the repaired tree writes under a final name
   | _ => True
 
 def wt : Ctx → Prog → Prop
@@ -244,11 +254,6 @@ def State.atRegen (s : State) (i : Nat) : Bool :=
   match (s.procs i).prog with
   | .op o _ => isRegen o
   | _ => false
-
-/-- along this schedule nobody performs the `.dat.tar` regeneration write -/
-def regenFree : List Nat → State → Prop
-  | [], _ => True
-  | i :: rest, s => s.atRegen i = false ∧ regenFree rest (s.step i)
 
 /-! ### the builders -/
 
@@ -275,8 +280,18 @@ def indexOnline (t : Name) (hk gk : Cid) (n : Nat) : Prog :=
 def indexOffline (cands : List Name) : Prog :=
   .op (.readNewest cands) (.halt true)
 
-/-- `APKExpanded.PackageData` through the advertised names (dat = `adv k2`, tar = `adv k3`), then `rest` -/
-def pkgData (k2 k3 : Cid) (n : Nat) (rest : Prog) : Prog :=
+/-- `APKExpanded.PackageData` through the advertised names (dat = `adv k2`, tar = `adv k3`), then
+`rest`.  When `.dat.tar` alone is missing it is regenerated: decompress `.dat.tar.gz` into a fresh temp
+`t4` next to the final name and `rename` it into place (fix F19a). -/
+def pkgData (t4 : Name) (k2 k3 : Cid) (n : Nat) (rest : Prog) : Prog :=
+  .ifStat (.adv k3)
+    (.op (.read (.adv k3) false) rest)
+    (.op (.read (.adv k2) true) <| .op (.mark 9) <| .op (.create t4 k3) <| .op (.mark 10) <|
+      chunks n t4 <| .op (.finish t4) <| .op (.rename t4 (.adv k3)) <| .op (.mark 11) <|
+      .op (.read (.adv k3) false) rest)
+
+/-- `PackageData` before the fix: `os.Create` under the final name, copy, close -/
+def pkgDataOld (k2 k3 : Cid) (n : Nat) (rest : Prog) : Prog :=
   .ifStat (.adv k3)
     (.op (.read (.adv k3) false) rest)
     (.op (.mark 9) <| .op (.regen (.adv k3) k3) <| .op (.mark 10) <|
@@ -287,8 +302,9 @@ def pkgData (k2 k3 : Cid) (n : Nat) (rest : Prog) : Prog :=
 def pkgUse (k1 : Cid) : Prog := .op (.read (.adv k1) true) (.halt true)
 
 /-- cache miss: `ExpandApk` into a fresh `expand-apk*` directory, `cachePackage` (three advertises
-for an unsigned apk; a signature section would be a fourth, handled like the control section) -/
-def pkgMiss (t1 t2 t3 : Name) (k1 k2 k3 : Cid) (n : Nat) : Prog :=
+for an unsigned apk; a signature section would be a fourth, handled like the control section);
+`pd` is the `PackageData` call at the end of `cachePackage` -/
+def pkgMissWith (pd : Prog → Prog) (t1 t2 t3 : Name) (k1 k2 k3 : Cid) (n : Nat) : Prog :=
   .op .mkdir <| .op .mkdir <| .op (.mark 0) <|
   .op (.create t1 k1) <| .op (.mark 1) <|
   chunks n t1 <| .op (.finish t1) <| .op (.read t1 true) <|
@@ -299,23 +315,33 @@ def pkgMiss (t1 t2 t3 : Name) (k1 k2 k3 : Cid) (n : Nat) : Prog :=
   advertise t1 k1 <| .op (.mark 6) <|
   advertise t2 k2 <| .op (.mark 7) <|
   advertise t3 k3 <| .op (.mark 8) <|
-  pkgData k2 k3 n (pkgUse k1)
+  pd (pkgUse k1)
 
 /-- `expandPackage`: `cachedPackage` (hit when control and data resolve; `.dat.tar` is regenerated when
 it alone is missing), otherwise the miss path -/
-def pkgBuilder (t1 t2 t3 : Name) (k1 k2 k3 : Cid) (n : Nat) : Prog :=
+def pkgBuilderWith (pd : Prog → Prog) (t1 t2 t3 : Name) (k1 k2 k3 : Cid) (n : Nat) : Prog :=
   .ifStat (.adv k1)
     (.op (.read (.adv k1) true)
       (.ifStat (.adv k2)
-        (pkgData k2 k3 n (pkgUse k1))
-        (pkgMiss t1 t2 t3 k1 k2 k3 n)))
-    (pkgMiss t1 t2 t3 k1 k2 k3 n)
+        (pd (pkgUse k1))
+        (pkgMissWith pd t1 t2 t3 k1 k2 k3 n)))
+    (pkgMissWith pd t1 t2 t3 k1 k2 k3 n)
+
+def pkgMiss (t1 t2 t3 t4 : Name) (k1 k2 k3 : Cid) (n : Nat) : Prog :=
+  pkgMissWith (pkgData t4 k2 k3 n) t1 t2 t3 k1 k2 k3 n
+
+def pkgBuilder (t1 t2 t3 t4 : Name) (k1 k2 k3 : Cid) (n : Nat) : Prog :=
+  pkgBuilderWith (pkgData t4 k2 k3 n) t1 t2 t3 k1 k2 k3 n
+
+/-- the builder of the tree before the fix F19a -/
+def pkgBuilderOld (t1 t2 t3 : Name) (k1 k2 k3 : Cid) (n : Nat) : Prog :=
+  pkgBuilderWith (pkgDataOld k2 k3 n) t1 t2 t3 k1 k2 k3 n
 
 /-- offline the miss path cannot fetch: `FetchPackage` fails -/
-def pkgOffline (k1 k2 k3 : Cid) (n : Nat) : Prog :=
+def pkgOffline (t4 : Name) (k1 k2 k3 : Cid) (n : Nat) : Prog :=
   .ifStat (.adv k1)
     (.op (.read (.adv k1) true)
-      (.ifStat (.adv k2) (pkgData k2 k3 n (pkgUse k1)) (.halt false)))
+      (.ifStat (.adv k2) (pkgData t4 k2 k3 n (pkgUse k1)) (.halt false)))
     (.halt false)
 
 end Apko.Cache
